@@ -331,7 +331,7 @@ def run_encode(rep, tier=None):
                         good = False
                         continue
                     ext = (z3.SignExt(64 - bits, vals[kind]) if signed else z3.ZeroExt(64 - bits, vals[kind])) if bits < 64 else vals[kind]
-                    rec = next((r for r in s2.aux.get('int_texts', ()) if r[0] is got), None)
+                    rec = next((r for r in s2.aux.get('int_texts', ()) if same_text(r[0], got)), None)
                     if rec is not None and rec[3] == signed:
                         # the text is the Display of rec[1] (ghost record of the to_string model): compare the numbers
                         w = rec[1].size()
@@ -366,6 +366,12 @@ def run_encode(rep, tier=None):
     if np_ == 0:
         rep.inconc('vacuity: encode() produced no outcome')
     finish_engine(rep, it)
+
+
+def same_text(a, b):
+    """the same symbolic text (structurally identical terms), however the code moved it around"""
+    return a is b or (isinstance(a, BStr) and isinstance(b, BStr) and len(a.bytes) == len(b.bytes) and a.len.eq(b.len)
+                      and all(x.eq(y) for x, y in zip(a.bytes, b.bytes)))
 
 
 def report_encode(rep, what):
